@@ -54,10 +54,11 @@ func (ip *BaseIP) ID() string {
 // contains information and helper methods for a physical file on a normal disk.
 type FileIP struct {
 	*BaseIP
-	buffer    *bytes.Buffer
-	doStream  bool
-	lock      *sync.Mutex
-	SubStream *InPort
+	buffer      *bytes.Buffer
+	doStream    bool
+	lock        *sync.Mutex
+	SubStream   *InPort
+	tempExecDir string
 }
 
 // NewFileIP creates a new FileIP
@@ -238,9 +239,16 @@ func (ip *FileIP) Read() []byte {
 
 // Write writes a byte array ([]byte) to the file's temp file path
 func (ip *FileIP) Write(dat []byte) {
-	ip.createDirs("")
-	err := ioutil.WriteFile(ip.TempPath(), dat, 0644)
-	CheckWithMsg(err, "Could not write to temp file: "+ip.TempPath())
+	// For out-IPs of a task, the temp file lives inside the temporary
+	// execution directory of the task, from where it is moved to its final
+	// path when the task has finished
+	ip.createDirs(ip.tempExecDir)
+	tempPath := ip.TempPath()
+	if ip.tempExecDir != "" {
+		tempPath = ip.tempExecDir + "/" + tempPath
+	}
+	err := ioutil.WriteFile(tempPath, dat, 0644)
+	CheckWithMsg(err, "Could not write to temp file: "+tempPath)
 }
 
 const (
